@@ -98,3 +98,10 @@ CLAIMS["C19"] = dict(
     note="Trusted: handlers are the functions registered in the route table; request data = fields of locally decoded structs; constant HTTP statuses. One table exception (optional body of handleEndSession).",
     technique="static analysis: per-handler SSA path queries (error-edge → 4xx → return; limit-test dominates call), taint-style sanitizer-dominates-sink for path confinement",
 )
+
+CLAIMS["C18"] = dict(
+    ref="DESIGN.md §4 C18",
+    text="Decides the structural clauses of storage/kernel faithfulness on every path: each function registered in a kernel table (including init() overrides) reports an error on the lengths-differ edge before any element is read (GRD-kernel); kernels never do arithmetic in 8/16-bit integer types and Euclidean kernels never use the self-product (norm-expansion) form (GRD-widen); every float→int8 conversion is fed by a two-sided clamp inside the int8 range (GRD-clamp); per precision, slot size, arena code, byte-cast helper, vecData arm and kernel field agree in all 24 precision switches (TBL-prec); the arena never lets a window into slotTable/freeSlots escape unless it re-points the field at a fresh array first (GRD-own); every free-list push is paired with a slot-table store and pushes that id's current slot, every pop/fresh slot is consumed before return, and relocation re-validates, copies first and updates the node pointer (GRD-slot); slot state, chunks and AbsMax are accessed under their locks (LCK-5, arena/quantiser classes). Numeric error bounds, kernel-vs-reference agreement within tolerance, symmetry, ranking perturbation, and what a reader that already holds a pointer sees during relocation are NOT decided.",
+    note="Trusted: go/ssa value flow through slices/append/phi (append's first operand may alias, its variadic operand does not); Go's memory model for locks. Euclidean difference-form rule flags one specific unstable idiom only.",
+    technique="static analysis: SSA guard-dominance and path queries over kernels/quantiser/arena, alias (backing-array provenance) tracking for slice escapes, typed-AST switch-arm agreement, lockset dataflow",
+)
